@@ -139,7 +139,8 @@ def s2(ctx, rid):
 
 def s3(ctx, rid):
     prog = ctx.prog
-    S = sync_summ(prog)
+    # a helper that syncs `if let Some(active_blob)` counts: the None edge means there is no blob to retire
+    S = sync_summ(prog, excuse=lambda fn: none_edges_of_field(fn, 'active_blob'))
     n = 0
     # take() of Safe.active_blob whose payload reaches the closed-list push: sync in between
     for f in prog.fns.values():
